@@ -1,0 +1,27 @@
+//go:build verif
+// +build verif
+
+package utils
+
+import "sync/atomic"
+
+// Verification hook (build tag verif only): records the largest buffer length requested
+// through ByteBuffer.ChangeLen, so that "largest buffer requested for one message" can be
+// read exactly.
+
+var verifMaxAlloc int64
+
+func verifAlloc(n int) {
+	for {
+		cur := atomic.LoadInt64(&verifMaxAlloc)
+		if int64(n) <= cur || atomic.CompareAndSwapInt64(&verifMaxAlloc, cur, int64(n)) {
+			return
+		}
+	}
+}
+
+// VerifResetMaxAlloc sets the recorded maximum back to zero.
+func VerifResetMaxAlloc() { atomic.StoreInt64(&verifMaxAlloc, 0) }
+
+// VerifMaxAlloc returns the largest length passed to ByteBuffer.ChangeLen since the last reset.
+func VerifMaxAlloc() int64 { return atomic.LoadInt64(&verifMaxAlloc) }
